@@ -368,3 +368,7 @@ mod tests {
         p.down(false);
     }
 }
+
+#[cfg(kani)]
+#[path = "/verif/units/kani/core_trie_pos.rs"]
+mod verif_kani;
